@@ -219,6 +219,9 @@ func c09Run(c *Case) (out string, fails []Fail) {
 	defs.InputLogMaxMessageBytes = maxMsg
 	defs.InputLogMaxRecordBytes = maxRec
 	defs.InputLogMinRecordBytesToPool = minPool
+	if c.Kind == 3 || c.Kind == 4 {
+		return c09RunX(env, c)
+	}
 	if c.Kind == 2 {
 		// a sequence of messages through ONE new parser instance; counters (cumulative) after every message
 		p, err := env.newParser(nil)
@@ -231,7 +234,7 @@ func c09Run(c *Case) (out string, fails []Fail) {
 		table := append([][]byte{c09Big(c)}, c.S[3:]...)
 		idx := c.Z[4:]
 		for i, k := range idx {
-			o, f := c09One(env, p, base, &prev, table[k], c09Severities, true, fmt.Sprintf("message %d of the sequence %v through one parser (message table in the case), ", i+1, idx))
+			o, f := c09One(env, p, nil, base, &prev, table[k], c09Severities, true, fmt.Sprintf("message %d of the sequence %v through one parser (message table in the case), ", i+1, idx))
 			outs = append(outs, o)
 			fails = append(fails, f...)
 		}
@@ -254,7 +257,7 @@ func c09Run(c *Case) (out string, fails []Fail) {
 	}
 	before := p.read()
 	prev := before
-	o, f := c09One(env, p, before, &prev, input, levels, compact, "")
+	o, f := c09One(env, p, nil, before, &prev, input, levels, compact, "")
 	fails = append(fails, f...)
 	// the same message through the parser as the agent configures it (composite parser of sysloginput)
 	if !compact {
@@ -265,7 +268,7 @@ func c09Run(c *Case) (out string, fails []Fail) {
 		}
 		cbefore := cp.read()
 		cprev := cbefore
-		o2, f2 := c09One(env, cp, cbefore, &cprev, input, levels, compact, "through sysloginput.Config.NewParser, ")
+		o2, f2 := c09One(env, cp, nil, cbefore, &cprev, input, levels, compact, "through sysloginput.Config.NewParser, ")
 		if o2 != o {
 			fails = append(fails, Fail{"c09:composite-differs", fmt.Sprintf("sysloginput's composite parser gives %.200s, the syslog parser alone %.200s for input %s", o2, o, c09Short(input))})
 		}
@@ -276,7 +279,8 @@ func c09Run(c *Case) (out string, fails []Fail) {
 
 // c09One parses one message with parser p. base0: counter reading the printed counters are relative
 // to; prev: reading before this message (updated). Returns the canonical output and the oracle's verdicts.
-func c09One(env *c09Env, p *c09Parser, base0 [6]uint64, prev *[6]uint64, input []byte, levels []string, compact bool, where string) (out string, fails []Fail) {
+// x: nil, or the extraction transforms and allocator of a composite parser under test (c09_composite.go).
+func c09One(env *c09Env, p *c09Parser, x *c09XOpt, base0 [6]uint64, prev *[6]uint64, input []byte, levels []string, compact bool, where string) (out string, fails []Fail) {
 	maxMsg, maxRec, minPool := defs.InputLogMaxMessageBytes, defs.InputLogMaxRecordBytes, defs.InputLogMinRecordBytesToPool
 	fail := func(sig, format string, args ...interface{}) {
 		fails = append(fails, Fail{sig, where + fmt.Sprintf(format, args...) + fmt.Sprintf(" [maxMsg=%d maxRec=%d minPool=%d input=%s]", maxMsg, maxRec, minPool, c09Short(input))})
@@ -317,7 +321,13 @@ func c09One(env *c09Env, p *c09Parser, base0 [6]uint64, prev *[6]uint64, input [
 		if record.RawLength != len(input) {
 			fail("c09:accounting", "RawLength %d for an input of %d bytes", record.RawLength, len(input))
 		}
-		env.alloc.Release(record)
+		if x != nil {
+			for i := 0; i < x.outputs; i++ { // every output releases its reference
+				x.alloc.Release(record)
+			}
+		} else {
+			env.alloc.Release(record)
+		}
 	}
 	switch {
 	case panicMsg != "":
@@ -373,7 +383,7 @@ func c09One(env *c09Env, p *c09Parser, base0 [6]uint64, prev *[6]uint64, input [
 		pri, strict, liberal = c09PriOf(parts[0])
 	}
 	wellFormed := len(input) >= 32 && len(parts) == 8 && strict
-	if wellFormed && record == nil {
+	if wellFormed && record == nil && !(x != nil && x.mayDrop(pri, parts, levels)) {
 		fail("c09:wellformed-dropped", "a well-formed line with PRI %d is dropped", pri)
 	}
 	if !liberal && record != nil {
@@ -385,21 +395,30 @@ func c09One(env *c09Env, p *c09Parser, base0 [6]uint64, prev *[6]uint64, input [
 			fail("c09:field-mismatch", "a record is returned for a line with only %d space-separated parts", len(parts))
 			return out, fails
 		}
+		// a returned record has been through all extraction transforms: the fields of their delFields are empty
+		deleted := func(i int) bool { return x != nil && x.deleted[i] }
+		for i := range got {
+			if deleted(i) && len(got[i]) != 0 {
+				fail("c09:field-mismatch", "field %s is %s after an extraction that deletes it", c09Fields[i], c09Short(got[i]))
+			}
+		}
 		if liberal {
-			if want := c09Facilities[pri/8]; string(got[0]) != want {
+			if want := c09Facilities[pri/8]; string(got[0]) != want && !deleted(0) {
 				fail("c09:facility", "PRI %d: facility %q, expected %q", pri, got[0], want)
 			}
-			if want := levels[pri%8]; string(got[1]) != want {
+			if want := levels[pri%8]; string(got[1]) != want && !deleted(1) {
 				fail("c09:level", "PRI %d: level %q, expected %q", pri, got[1], want)
 			}
 		}
 		for i := 1; i <= 6; i++ {
-			if !bytes.Equal(got[i+1], parts[i]) {
+			if !bytes.Equal(got[i+1], parts[i]) && !deleted(i+1) {
 				fail("c09:field-mismatch", "field %s is %s, the line has %s", c09Fields[i+1], c09Short(got[i+1]), c09Short(parts[i]))
 			}
 		}
 		m, log := parts[7], got[8]
-		if len(m) <= maxMsg {
+		if deleted(8) {
+			truncated = len(m) > maxMsg
+		} else if len(m) <= maxMsg {
 			// not over-long: the message itself; a record at the record limit may have been cut by the
 			// listener, the parser may then drop an invalid UTF-8 tail (after the last ASCII byte)
 			if !bytes.Equal(log, m) {
@@ -422,6 +441,10 @@ func c09One(env *c09Env, p *c09Parser, base0 [6]uint64, prev *[6]uint64, input [
 				fail("c09:cut-content", "over-long message (%d bytes, valid UTF-8 up to the boundary %d) is cut to %s", len(m), k, c09Short(log))
 			}
 		}
+	}
+	// an over-long message of the accepted form that an extraction drops has been cut and counted by the parser
+	if x != nil && record == nil && len(input) >= 32 && len(parts) == 8 && liberal && len(parts[7]) > maxMsg {
+		truncated = true
 	}
 	// overflow counted once, with the byte length, exactly for truncated messages
 	if truncated && !(d[4] == 1 && d[5] == n) {
